@@ -391,6 +391,27 @@ class Real:
                 del c.NEIGHBOR_CACHING
         return "ok"
 
+    def maybe_in_thread(self, fn):
+        """every other builder call is made from a WORKER thread (an executor, a request handler): state the library
+        keeps per thread must be there for threads other than the one that imported it"""
+        import threading
+        n = self._bcalls = getattr(self, "_bcalls", 0) + 1
+        if n % 2:
+            return fn()
+        box = {}
+
+        def run():
+            try:
+                box["r"] = fn()
+            except BaseException as exc:  # noqa: BLE001
+                box["e"] = exc
+        t = threading.Thread(target=run)
+        t.start()
+        t.join()
+        if "e" in box:
+            raise box["e"]
+        return box["r"]
+
     def reload(self):
         """the caller SAVES the whole graph and goes on working with the LOADED copy (in turn: pickle, copy.deepcopy,
         nrpickler + pickle.loads); the copies are registered under the names of their originals, the originals are
@@ -1153,7 +1174,7 @@ class Real:
                 # the value lists "don't have to be lists -- only iterable objects": generators, tuples
                 arg = {k: ((x for x in vs) if i % 3 == 0 else tuple(vs) if i % 3 == 1 else vs)
                        for i, (k, vs) in enumerate(adj.items())}
-            u = adjlist.load_adj_dict(arg, linktype=LCLS[toks[1]])
+            u = self.maybe_in_thread(lambda: adjlist.load_adj_dict(arg, linktype=LCLS[toks[1]]))
             return "ok V%d" % self.register_built(u, pairs, nL)
         if op == "adjmat":
             from edgegraph.builder import adjmatrix
@@ -1167,7 +1188,7 @@ class Real:
                     matrix.append([(truthy if ch == "1" else falsy)[(i + j) % 6] for j, ch in enumerate(r)])
             nL = len(self.L)
             self.keep(matrix, vs, *matrix)
-            u = adjmatrix.load_adj_matrix(matrix, vs, linktype=LCLS[toks[1]])
+            u = self.maybe_in_thread(lambda: adjmatrix.load_adj_matrix(matrix, vs, linktype=LCLS[toks[1]]))
             pairs = [(vs[i], vs[j]) for i, row in enumerate(matrix) for j, cell in enumerate(row) if cell]
             return "ok V%d" % self.register_built(u, pairs, nL)
         if op == "randgraph":
